@@ -304,9 +304,10 @@ func init() {
 		if n.IsConst() {
 			return ret(mkStr(fmt.Sprintf("%d", n.U)))
 		}
-		r := e.injUF("fmtU", SStr, n)
+		r := e.injUF("fmtU", SBlob, n)
 		e.assume(tEq(mkUF("juint", SBV(64), r), n))
 		e.assume(mkUF("jsonUint", SBool, r))
+		e.assume(tNe(r, mkStr("")))
 		return ret(r)
 	}
 
